@@ -1004,7 +1004,8 @@ def g_tg_chars(rng):
         d = 0.0 if point else rng.choice([0.125, 0.5, 1.0])
         tr.append([g_odd(rng, "tg", empty_ok=True) if rng.random() < 0.85 else "a", t, t + d])
         t += d + (0.5 if point else 0.0)
-    c = {"kind": "tg", "tr": tr, "precision": 3 if rng.random() < 0.8 else rng.choice([1, 4]),
+    # times are multiples of 1/8 s: exact with >= 3 decimals (this stream is about labels, not about rounding)
+    c = {"kind": "tg", "tr": tr, "precision": 3 if rng.random() < 0.8 else rng.choice([4, 5, 6]),
          "point_tier": None if rng.random() < 0.8 else point, "tier_id": 0,
          "fill": rng.choice([None, None, "<gap>", chr(9), "a" + chr(160) + "b"])}
     if rng.random() < 0.4:
